@@ -630,11 +630,12 @@ def _noeffect_extras(rng, mg, cfg):
     walk(cfg)
 
 
-def gen_c07_contain(engine):
+def gen_c07_contain(engine, services=False):
     def g(seed):
-        rng = _rng(seed, 700)
+        rng = _rng(seed, 700 + (7 if services else 0))
+        svc = dict(p_invoke=0.4, svc_kinds=(("coro", "sync") if engine == "async" else ("sync",)), root_final=True) if services else {}
         mg = MachineGen(rng, prof(p_assign=0.0, p_raise=0.0, p_extra_entry=0.0, p_always=0.0, p_history=0.1, p_parallel=0.2,
-                                  p_final=0.1, n_states=(3, 8), p_guard=0.3, p_after=0.15))
+                                  p_final=0.1, n_states=(3, 8), p_guard=0.3, p_after=0.15, **svc))
         out = mg.build()
         _noeffect_extras(rng, mg, out["machine"])
         out["machine"]["context"]["z"] = 0
@@ -642,6 +643,10 @@ def gen_c07_contain(engine):
         sc = _base(seed, engine, out, ops, horizon=None)
         sc["c07_mode"] = "contain"
         sc["hostile_plugin"] = ["on_transition", "on_action_execute", "on_event_received", "on_guard_evaluated", "on_interpreter_start", "on_action_error"]
+        if services:
+            # observer hooks around services, completion and shutdown
+            sc["hostile_plugin"] += ["on_service_start", "on_service_done", "on_service_error", "on_done", "on_error", "on_interpreter_stop"]
+            sc["post_stop"] = 100 * MS
         sc["hostile_subscriber"] = True
         sc["hostile_listener"] = True
         sc["fault_pairs"] = [[rng.randint(1, 30), rng.randint(31, 60)] for _ in range(3)]
@@ -749,6 +754,8 @@ def gen_c07_abort(engine):
 register(
     "C07",
     families=[("contain_sync", 3, gen_c07_contain("sync")), ("contain_async", 3, gen_c07_contain("async")),
+              ("contain_services_sync", 2, gen_c07_contain("sync", services=True)),
+              ("contain_services_async", 2, gen_c07_contain("async", services=True)),
               ("abort_sync", 2, gen_c07_abort("sync")), ("abort_async", 2, gen_c07_abort("async"))],
     runner=C07.run_c07,
     stats=C07.stats_c07,
